@@ -163,6 +163,21 @@ def check_fanout(ctx, R):
         if rebinds:
             ok, detail = False, 'the element parameter x is re-bound inside _emit'
     R.ob('FANOUT', con, 'delivery-loop', ok, detail, ctx.where(fn, line))
+    # the loop runs over a snapshot: a downstream's update() may edit the graph (slice/destroy detach themselves), and a
+    # set that changes size during iteration raises, so that the siblings attached later lose the element
+    if loop_node is not None:
+        live = None
+        nl = 0
+        for st, status in ctx.paths(lf, M.stream):
+            for e in st.events:
+                if e.kind == 'ITER' and (e.x or {}).get('node') is not None and e.x['node'].lineno == loop_node.lineno:
+                    nl += 1
+                    if e.x.get('iter_field') == 'downstreams':
+                        live = st.events
+        R.ob('FANOUT', con, 'iterates-snapshot', live is None and nl > 0,
+             'the delivery loop iterates self.downstreams itself, not a snapshot (list(...)): a downstream that detaches itself '
+             'during update() breaks the iteration and later siblings lose the element', ctx.where(fn, line),
+             fmt_path(live) if live else None, nl)
     # per path: every iteration of the delivery loop calls <downstream>.update exactly once, unconditionally, with the
     # element itself; what the calls return reaches the returned list
     bad, badcall = None, None
@@ -1272,6 +1287,32 @@ def check_partition_timer(ctx, R):
          (bad_cancel or '') + ' (a spurious partial/empty partition is emitted later)', ctx.where(up, up.node.lineno), None, n_flush)
     R.ob('ARM-ON-FIRST', con, '_callbacks', bad_arm is None and n_arm > 0,
          bad_arm or 'no path arms the timeout', ctx.where(up, up.node.lineno), None, n_arm)
+    # the handle map is written by the arming site and read by cancel(); an entry removed after a suspension of a coroutine
+    # may be the handle of a timer that update() armed meanwhile: that timer can then neither be cancelled nor found
+    tfields = set()
+    for r in paths:
+        for kk, (cc, s_, l) in enumerate(r.calls):
+            if isinstance(cc, ast.Assign) and isinstance(cc.value, ast.Name) and re.fullmatch(r'C\d+', cc.value.id):
+                tc = r.calls[int(cc.value.id[1:])][0]
+                if isinstance(tc, ast.Call) and isinstance(tc.func, ast.Attribute) and tc.func.attr == 'call_later':
+                    m_ = re.match(r'self\.(\w+)\[', nf(cc.targets[0]))
+                    if m_:
+                        tfields.add(m_.group(1))
+    late = None
+    for mname, fn in ctx.entry_methods(cls):
+        if mname == '__init__' or not (fn.is_coro or fn.is_generator):
+            continue
+        for st, status in ctx.paths(fn, cls):
+            sus = False
+            for e in st.events:
+                if e.kind == 'SUS':
+                    sus = True
+                if sus and e.kind == 'TK' and e.a in tfields:
+                    late = (fn, e, st.events)
+    R.ob('ARM-CANCEL', con, 'handles-not-dropped-late', late is None and bool(tfields),
+         'a timer handle is removed from self.%s after a suspension (in %s): a timer armed by update() in the meantime is '
+         'forgotten, so the next size flush cannot cancel it' % (sorted(tfields)[0] if tfields else '?', late[0].qual if late else ''),
+         ctx.where(late[0], late[1].line) if late else None, fmt_path(late[2]) if late else None)
 
 
 def _conjuncts(text, outcome):
